@@ -441,7 +441,8 @@ def check_aliasing(ctx, rep, rule):
             n += 1
             # the read object vs the mutated one: if the &mut is a parameter and the read object another parameter, they may alias
             # unless the mutation has not started and ... we require: the read happens before the first mutating call on every path
-            MUTOPS = ('IndexMut<I>>::index_mut', '::replace_range', 'Vec::<T, A>::push', '::insert', '::clear')
+            MUTOPS = ('IndexMut<I>>::index_mut', '::replace_range', 'Vec::<T, A>::push', '::insert', '::clear', '::truncate', '::split_off', '::push_str', '::insert_str',
+                      'String::remove', 'Vec::<T, A>::remove', '::drain', '::retain', 'String::pop', 'Vec::<T, A>::pop', '::swap_remove', '::extend', '::extend_from_slice', '::push')
             mut_blocks = [bb for bb, tt in f.calls() if any(callee_name(tt).endswith(m) for m in MUTOPS)]
             # where does the read value flow: into the mutating call's arguments? then source and target may be the same buffer
             flows = False
@@ -459,6 +460,19 @@ def check_aliasing(ctx, rep, rule):
                 for a in tt['args'][1:]:
                     if op_base_local(a) in views:
                         flows = True
+            # ... and the read itself must not come after the target has started to change: a copy taken then is a copy of the
+            # half-changed text when both are the same object
+            late = False
+            for mb in mut_blocks:
+                if b != mb and b in f.reachable(mb) and not f.path.startswith('builtins::'):
+                    tt = f.term(mb)
+                    # the mutation is of a payload obtained from an Object of this function (not of a local buffer being built)
+                    r0 = str(sym(f, tt['args'][0])) if tt['args'] else ''
+                    if any(m_.split('::')[-1] in r0 for m_ in MUTS) or (holds_mut and "('param'," in r0):
+                        late = True
+            rep.ob(not late, rule, f.path, 'read of another Object after the mutation began (%s)' % callee_name(t).split('::')[-1],
+                   'every read of an Object that may be the one being modified happens before the first change to the target (`s[i] = s`: a copy taken after the target was cut is a copy of the cut text)',
+                   span_loc(t['span']))
             rep.ob(not flows, rule, f.path, 'read of another Object while holding &mut (%s)' % callee_name(t).split('::')[-1],
                    'a borrowed view of an Object (which may be the very object being mutated: `s[0] = s`) is passed into the mutation; copy it first',
                    span_loc(t['span']))
